@@ -18,6 +18,23 @@ Theorem C14_model_meets_spec : forall c,
 Proof. exact model_meets_spec. Qed.
 Print Assumptions C14_model_meets_spec.
 
+(* (1') After the repairs of slip (repo_fixes/C14-1 .. C14-27) the guard of find position count remove delete
+   substitute nsubstitute (and -if), search, subseq, replace, reverse, nreverse, map, concatenate is nothing but
+   "bounding indices in range, characters representable, only keywords the function has": for EVERY such call,
+   with any combination of :start :end :key :test :test-not :count (a number or nil) :from-end (:start2 :end2),
+   on nil / list / vector / string, the modelled code returns exactly the one value the language defines. *)
+Theorem C14_guard_is_bounds : forall c, bounds_only (c_fn c) = true ->
+  in_domain c = bounds_ok c && seq_ok (c_seq c) && seq_ok (c_seq2 c) && keywords_ok c &&
+                match c_fn c with FSearch | FReplace => bounds2_ok c | _ => true end.
+Proof. exact guard_is_bounds. Qed.
+Print Assumptions C14_guard_is_bounds.
+Theorem C14_in_range_calls_meet_spec : forall c, bounds_only (c_fn c) = true ->
+  bounds_ok c = true -> seq_ok (c_seq c) = true -> seq_ok (c_seq2 c) = true -> keywords_ok c = true ->
+  match c_fn c with FSearch | FReplace => bounds2_ok c | _ => true end = true ->
+  m_call c = s_call c /\ exists r, s_call c = Some r.
+Proof. exact in_range_calls_meet_spec. Qed.
+Print Assumptions C14_in_range_calls_meet_spec.
+
 (* (1a-1d) the same for the families the property names first, as equalities M = S: every combination
    of :start :end :key :test :from-end (find position count and -if), :count with :from-end (remove
    delete), substitute, remove-duplicates (which occurrences survive) *)
@@ -180,8 +197,10 @@ Theorem C14_reverse_loops : forall l, m_reverse_list l = rev l /\ go_reverse l =
 Proof. exact reverse_loops. Qed.
 Print Assumptions C14_reverse_loops.
 
-(* (6) outside the guard the faithful model leaves the specification: the known findings, each a
-   concrete call with negb (in_domain c), m_call c = Some r and spec_ok c r = false *)
+(* (6) outside the guard the faithful model leaves the specification: the remaining known findings (the
+   -if-not functions, mismatch :from-end index, fill bounds = length, reduce on an empty range) and the
+   argument order of remove-duplicates :from-end (not a finding), each a concrete call with
+   negb (in_domain c), m_call c = Some r and spec_ok c r = false *)
 Theorem C14_known_findings_refuted : forallb refutes refutation_witnesses = true.
 Proof. exact all_refuted. Qed.
 Print Assumptions C14_known_findings_refuted.
